@@ -63,6 +63,10 @@ func (v *PacketDslFormattor) getHiddenLeft(token antlr.Token) string {
 }
 
 func (v *PacketDslFormattor) getHiddenRightAtSameLine(token antlr.Token) string {
+	if token == nil {
+		// an input without any token (empty or comment-only) has no stop token
+		return ""
+	}
 	hidden := v.tokenStream.GetHiddenTokensToRight(token.GetTokenIndex(), antlr.TokenHiddenChannel)
 	if hidden == nil {
 		return ""
